@@ -262,10 +262,11 @@ structure Fixes where
   nested : Bool      -- `a, (b, c) = …` records b and c (the code: leftmostname of each element)
   delSeq : Bool      -- `del (a, b)` / `del [a]` strike a and b (the code: Name targets only)
   delSess : Bool     -- a module-level `del x` strikes x from contexts[0] too (same namespace) unless it is a builtin
+  handler : Bool     -- an `except … as e` records e when the handler is entered (the code: when the `try` is entered; a `del e` in between strikes it)
   deriving Repr, DecidableEq
 
-def Fixes.none : Fixes := ⟨false, false, false, false, false, false, false, false⟩
-def Fixes.all : Fixes := ⟨true, true, true, true, true, true, true, true⟩
+def Fixes.none : Fixes := ⟨false, false, false, false, false, false, false, false, false⟩
+def Fixes.all : Fixes := ⟨true, true, true, true, true, true, true, true, true⟩
 
 structure Env where
   B : List Name       -- `dir(builtins)` (with a session loaded: includes `__xonsh__`)
@@ -485,8 +486,8 @@ def Sp.userBound (s : Sp) : Expr → Bool
   | .name x => s.sess.contains x || s.frames.any (·.contains x)
   | _ => false
 
-def Sp.delRead (env : Env) (s : Sp) (e : Expr) : Bool :=
-  (loads e).any fun x => !(stores true e).contains x && s.dels.any (·.contains x) && !s.vis env x
+def Sp.delRead (env : Env) (s : Sp) (e : Expr) : List Name :=
+  (loads e).filter fun x => !(stores true e).contains x && s.dels.any (·.contains x) && !s.vis env x
 
 /-! ## guards: where the mechanisms that break the property are absent
 
@@ -548,7 +549,7 @@ def Ctxs.top (c : Ctxs) : List Name :=
 structure Rec where
   sid : Nat
   ok : Bool            -- Spec: every name the statement reads is defined
-  delRead : Bool       -- Spec: an expression statement that reads a deleted, now undefined name
+  delRead : List Name  -- Spec: the deleted, now undefined names an expression statement reads (the property sends it back to command interpretation)
   tame : Bool          -- Spec: every `del` so far could be executed by Python (else the property says nothing)
   shadow : Bool        -- Spec: the statement is a bare name that the session / the source binds (it must not be read from `builtins`)
   g : Bool             -- no known property-breaking mechanism has been triggered so far (see the guards)
@@ -585,29 +586,29 @@ mutual
       let c0 := preW env st.c (allW v)
       let c1 := c0.addTop (assignAdds tgts ++ (if env.fx.nested then tBindsL tgts else []))
       let r := xEs env [] c1 (one v)
-      ([⟨sid, st.s.readsOk env (one v) (tReadsL tgts), false, st.tame, false, g, r.1⟩],
+      ([⟨sid, st.s.readsOk env (one v) (tReadsL tgts), [], st.tame, false, g, r.1⟩],
        { st with c := r.2, s := st.s.bind (allW v ++ tBindsL tgts), g := g })
     | .annassign sid t ann v =>
       let es := Exprs.cons ann v
-      let g := st.g && gExprs env.fx es && subset (tBinds t) (lmName t)
+      let g := st.g && gExprs env.fx es && (env.fx.nested || subset (tBinds t) (lmName t))
       let c0 := preW env st.c (allWL es)
-      let c1 := c0.addTop (lmName t)
+      let c1 := c0.addTop (lmName t ++ (if env.fx.nested then tBinds t else []))
       let r := xEs env [] c1 es
-      ([⟨sid, st.s.readsOk env es (tReads t), false, st.tame, false, g, r.1⟩],
+      ([⟨sid, st.s.readsOk env es (tReads t), [], st.tame, false, g, r.1⟩],
        { st with c := r.2, s := st.s.bind (allWL es ++ (match v with | .nil => [] | _ => tBinds t)), g := g })
     | .augassign sid t v =>
       let g := st.g && gExprs env.fx (one v)
       let c0 := preW env st.c (allW v)
       let r := xEs env [] c0 (one v)
-      ([⟨sid, st.s.readsOk env (one v) (tNames t), false, st.tame, false, g, r.1⟩],
+      ([⟨sid, st.s.readsOk env (one v) (tNames t), [], st.tame, false, g, r.1⟩],
        { st with c := r.2, s := st.s.bind (allW v), g := g })
     | .imp sid items =>
       let g := st.g && subset (impAdds Fixes.all items) (impAdds env.fx items)
-      ([⟨sid, true, false, st.tame, false, g, []⟩],
+      ([⟨sid, true, [], st.tame, false, g, []⟩],
        { st with c := st.c.addTop (impAdds env.fx items), s := st.s.bind (impAdds Fixes.all items), g := g })
     | .impFrom sid items =>
       let g := st.g && subset (impAdds Fixes.all items) (impAdds env.fx items)
-      ([⟨sid, true, false, st.tame, false, g, []⟩],
+      ([⟨sid, true, [], st.tame, false, g, []⟩],
        { st with c := st.c.addTop (impAdds env.fx items), s := st.s.bind (impAdds Fixes.all items), g := g })
     | .fdef sid f ps defaults body decos =>
       let hdr := defaults.append decos
@@ -621,7 +622,7 @@ mutual
       let r2 := xEs env [] rb.2.c decos
       -- decorators are evaluated before the body exists but visited after it: the claim is made only if their reads are bound at both points
       let ok2 := ok && freeOkL (rb.2.s.pop.visList env) decos
-      (⟨sid, ok, false, st.tame, false, g, r1.1⟩ :: (rb.1 ++ [⟨sid, ok2, false, rb.2.tame, false, rb.2.g, r2.1⟩]),
+      (⟨sid, ok, [], st.tame, false, g, r1.1⟩ :: (rb.1 ++ [⟨sid, ok2, [], rb.2.tame, false, rb.2.g, r2.1⟩]),
        { rb.2 with c := r2.2.pop, s := rb.2.s.pop })
     | .cdef sid cn bases body decos =>
       let hdr := bases.append decos
@@ -634,7 +635,7 @@ mutual
       let rb := runL env st1 body
       let r2 := xEs env [] rb.2.c decos
       let ok2 := ok && freeOkL (rb.2.s.pop.visList env) decos
-      (⟨sid, ok, false, st.tame, false, g, r1.1⟩ :: (rb.1 ++ [⟨sid, ok2, false, rb.2.tame, false, rb.2.g, r2.1⟩]),
+      (⟨sid, ok, [], st.tame, false, g, r1.1⟩ :: (rb.1 ++ [⟨sid, ok2, [], rb.2.tame, false, rb.2.g, r2.1⟩]),
        { rb.2 with c := r2.2.pop, s := rb.2.s.pop })
     | .for_ sid tgt iter body orelse =>
       let g := st.g && gExprs env.fx (one iter)
@@ -644,7 +645,7 @@ mutual
       let st1 : St := { st with c := r.2, s := st.s.bind (allW iter ++ tBinds tgt), g := g }
       let rb := runL env st1 body
       let ro := runL env rb.2 orelse
-      (⟨sid, st.s.readsOk env (one iter) (tReads tgt), false, st.tame, false, g, r.1⟩ :: (rb.1 ++ ro.1), ro.2)
+      (⟨sid, st.s.readsOk env (one iter) (tReads tgt), [], st.tame, false, g, r.1⟩ :: (rb.1 ++ ro.1), ro.2)
     | .while_ sid test body orelse =>
       let g := st.g && gExprs env.fx (one test)
       let c0 := preW env st.c (allW test)
@@ -652,7 +653,7 @@ mutual
       let st1 : St := { st with c := r.2, s := st.s.bind (allW test), g := g }
       let rb := runL env st1 body
       let ro := runL env rb.2 orelse
-      (⟨sid, st.s.readsOk env (one test) [], false, st.tame, false, g, r.1⟩ :: (rb.1 ++ ro.1), ro.2)
+      (⟨sid, st.s.readsOk env (one test) [], [], st.tame, false, g, r.1⟩ :: (rb.1 ++ ro.1), ro.2)
     | .if_ sid test body orelse =>
       let g := st.g && gExprs env.fx (one test)
       let c0 := preW env st.c (allW test)
@@ -660,7 +661,7 @@ mutual
       let st1 : St := { st with c := r.2, s := st.s.bind (allW test), g := g }
       let rb := runL env st1 body
       let ro := runL env rb.2 orelse
-      (⟨sid, st.s.readsOk env (one test) [], false, st.tame, false, g, r.1⟩ :: (rb.1 ++ ro.1), ro.2)
+      (⟨sid, st.s.readsOk env (one test) [], [], st.tame, false, g, r.1⟩ :: (rb.1 ++ ro.1), ro.2)
     | .with_ sid ctxs tgts body =>
       let g := st.g && gExprs env.fx ctxs
       let c0 := preW env st.c (allWL ctxs)
@@ -668,7 +669,7 @@ mutual
       let r := xEs env [] c1 ctxs
       let st1 : St := { st with c := r.2, s := st.s.bind (allWL ctxs ++ tBindsL tgts), g := g }
       let rb := runL env st1 body
-      (⟨sid, st.s.readsOk env ctxs (tReadsL tgts), false, st.tame, false, g, r.1⟩ :: rb.1, rb.2)
+      (⟨sid, st.s.readsOk env ctxs (tReadsL tgts), [], st.tame, false, g, r.1⟩ :: rb.1, rb.2)
     | .try_ _ body hs orelse final =>
       let st0 : St := { st with c := st.c.addTop hs.names }
       let rb := runL env st0 body
@@ -677,19 +678,19 @@ mutual
       let rf := runL env ro.2 final
       (rb.1 ++ (rh.1 ++ (ro.1 ++ rf.1)), rf.2)
     | .global_ sid xs =>
-      ([⟨sid, true, false, st.tame, false, st.g, []⟩], { st with c := st.c.addGlob xs, s := st.s.bindGlobal xs })
+      ([⟨sid, true, [], st.tame, false, st.g, []⟩], { st with c := st.c.addGlob xs, s := st.s.bindGlobal xs })
     | .del sid names nested =>
       let all := names ++ nested
       let tame := st.tame && st.s.tameAll all
       let g := st.g && gDel env st.s all
-      ([⟨sid, all.all (fun x => st.s.vis env x), false, tame, false, g, []⟩],
+      ([⟨sid, all.all (fun x => st.s.vis env x), [], tame, false, g, []⟩],
        { c := st.c.removeAll env (names ++ (if env.fx.delSeq then nested else [])), s := st.s.delAll all, tame := tame, g := g })
     | .ret sid v =>
       let g := st.g && gExprs env.fx v
       let c0 := preW env st.c (allWL v)
       let r := xEs env [] c0 v
-      ([⟨sid, st.s.readsOk env v [], false, st.tame, false, g, r.1⟩], { st with c := r.2, s := st.s.bind (allWL v), g := g })
-    | .pass sid => ([⟨sid, true, false, st.tame, false, st.g, []⟩], st)
+      ([⟨sid, st.s.readsOk env v [], [], st.tame, false, g, r.1⟩], { st with c := r.2, s := st.s.bind (allWL v), g := g })
+    | .pass sid => ([⟨sid, true, [], st.tame, false, st.g, []⟩], st)
   def runL (env : Env) (st : St) : Stmts → List Rec × St
     | .nil => ([], st)
     | .cons s ss =>
@@ -700,13 +701,13 @@ mutual
     | .nil => ([], st)
     | .cons sid ty nm body rest =>
       -- the handler's name was recorded when the `try` was entered: it must still be there (a `del` in between strikes it)
-      let g := st.g && gExprs env.fx ty && subset (optName nm) st.c.top
+      let g := st.g && gExprs env.fx ty && (env.fx.handler || subset (optName nm) st.c.top)
       let c0 := preW env st.c (allWL ty)
-      let r := xEs env [] c0 ty
+      let r := xEs env [] (c0.addTop (if env.fx.handler then optName nm else [])) ty
       let st1 : St := { st with c := r.2, s := st.s.bind (allWL ty ++ optName nm), g := g }
       let rb := runL env st1 body
       let rr := runH env rb.2 rest
-      (⟨sid, st.s.readsOk env ty [], false, st.tame, false, g, r.1⟩ :: (rb.1 ++ rr.1), rr.2)
+      (⟨sid, st.s.readsOk env ty [], [], st.tame, false, g, r.1⟩ :: (rb.1 ++ rr.1), rr.2)
 end
 
 /-- what `Execer.compile` + `CtxAwareTransformer.ctxvisit` decide for a whole input, next to what the property says -/
